@@ -17,11 +17,11 @@ META = dict(
         quick="all pairs of graphs (connected or not) on <=3 nodes, plus equal-size 4-node pairs with <=3 bonds; element "
               "in {C,N}, charge in {0,1}, hcount in {0,1}, order in {1,2}; second graph under the same ids and under "
               "shifted ids with reversed insertion order; WL filter on/off; engines with node_attrs [element,charge] and "
-              "[element] querying the same objects in both orders; induced and monomorphism mode, use_filter on/off",
+              "[element] querying the same objects in both orders; induced and monomorphism mode, use_filter on/off; streams of short-lived graph pairs under eager address recycling",
         thorough="all pairs on <=4 nodes (<=4 bonds)",
     ),
     outside=["graphs > 4 nodes", "the optional 'mod' rule backend (not installed)", "MultiGraph/DiGraph inputs"],
-    stubs=[],
+    stubs=["stream harness: module attribute `id` of graph_matcher replaced by vf/idstub.py (eager, contract-conforming address recycling)"],
     assumptions=["hcount rule: the verdict must equal the bijection formula with host>=pattern hydrogen counts in one of "
                  "the two argument orders (the API does not say which argument is the host); symmetry is demanded only "
                  "when all hydrogen counts are equal",
@@ -208,7 +208,41 @@ def h_submatch(E, cn, cedges, pn, pedges, shift):
     E.observe(sorted((k[0], k[1], v[0]) for k, v in res.items()))
 
 
-HARNESSES = {"iso": h_iso, "filters": h_filters, "mappings": h_mappings, "submatch": h_submatch}
+def h_stream(E, n, edges):
+    """short-lived graphs: a pair is compared and dropped, then another pair of the same size is compared.  id() inside the
+    matcher module recycles addresses as eagerly as CPython allows, so anything remembered under an address must not
+    leak into the next answer."""
+    import gc
+    import importlib
+
+    from vf.idstub import recycled_ids
+
+    gmod = importlib.import_module("synkit.Graph.Matcher.graph_matcher")
+    GME = _eng()
+    edges = [tuple(e) for e in edges]
+    with recycled_ids(gmod):
+        eng = GME(node_attrs=NA, edge_attrs=EA, wl1_filter=True, max_mappings=None)
+        A, B = build_pair(E, n, edges, n, edges, True, "bare")
+        eng.isomorphic(A, B)
+        eng.get_mappings(A, B)
+        del A, B
+        gc.collect()
+        C, _ = sym_mol(E, "C", n, edges, elements=("C", "N"), hcounts=(0,), charges=(0,), orders=(1, 2))
+        D = relabel(C, {x: x + 70 for x in C.nodes}, order=list(reversed(list(C.nodes))))
+        v = bool(eng.isomorphic(C, D))
+        m = eng.get_mappings(C, D)
+        info = dict(edges=edges)
+        E.check(not v, "graph-not-isomorphic-to-its-relabelled-copy-after-earlier-queries", info)
+        E.check(len(m) == 0, "no-embedding-of-a-graph-into-its-relabelled-copy-after-earlier-queries", info)
+        plain = GME(node_attrs=NA, edge_attrs=EA, wl1_filter=False, max_mappings=None)
+        key = lambda ms: sorted(tuple(sorted(d.items())) for d in ms)
+        E.check(key(plain.get_mappings(C, D)) != key(m), "wl-filter-changes-mappings", info)
+    GME._wl_cache.clear()
+    E.note(nontrivial=True)
+    E.observe(len(m))
+
+
+HARNESSES = {"iso": h_iso, "filters": h_filters, "mappings": h_mappings, "submatch": h_submatch, "stream": h_stream}
 
 
 def shards(tier, seed):
@@ -235,6 +269,8 @@ def shards(tier, seed):
                 continue
             dom = "full" if hn <= 3 and pn <= 2 else "nocharge"
             sh.append(dict(h="mappings", params=dict(hn=hn, hedges=he, pn=pn, pedges=pe, dom=dom)))
+    for n_, es_ in ((2, [[1, 2]]), (3, [[1, 2], [2, 3]]), (3, [[1, 2], [1, 3], [2, 3]]), (4, [[1, 2], [2, 3], [3, 4]])):
+        sh.append(dict(h="stream", params=dict(n=n_, edges=es_)))
     for (pn_, pe), (cn, ce) in itertools.product(small + ([] if q else four), small):
         if cn <= pn_ and pn_ >= 2:
             sh.append(dict(h="submatch", params=dict(cn=pn_, cedges=pe, pn=cn, pedges=ce, shift=(len(pe) + len(ce)) % 2 == 0)))
